@@ -200,7 +200,9 @@ type tyGen struct {
 	fields []string
 }
 
-var fieldPool = []string{"a", "b", "c", "d"}
+// field names: plain ones, and names that differ only in case, in an accent, or by a prefix (an
+// ordering or a lookup that folds case, compares prefixes or normalises text confuses them)
+var fieldPool = []string{"a", "b", "c", "d", "A", "B", "ab", "aB", "Ab", "é", "É", "a1"}
 
 func (g *tyGen) atom() *T {
 	opts := []*T{tNum, tStr, tBool, tTime}
